@@ -19,7 +19,9 @@ LEVEL = 'model_checking'
 BATCH = 80
 
 PRELUDE = '''from enum import Enum
-from typing import TypeAlias
+from typing import Generic, TypeAlias, TypeVar
+
+T = TypeVar('T')
 
 Ints: TypeAlias = list[int]
 Rows: TypeAlias = list[list[int]]
@@ -42,8 +44,38 @@ class C:
 	def p(self) -> list[int]:
 		return [self.n]
 
+class G(Generic[T]):
+	v: T
+	vs: list[T]
+	rows: list[list[T]]
+	idx: dict[str, list[T]]
+	opt: T | None
+	spare: list[T] | None
+	pair: tuple[T, list[T]]
+
+	def __init__(self, v: T) -> None:
+		self.v = v
+		self.vs = [v]
+		self.rows = [[v]]
+		self.idx = {'a': [v]}
+		self.opt = v
+		self.spare = [v]
+		self.pair = (v, [v])
+
+	def get(self) -> T:
+		return self.v
+
+	def all(self) -> list[T]:
+		return self.vs
+
+	def grid(self) -> list[list[T]]:
+		return self.rows
+
+class IG(G[int]):
+	pass
+
 '''
-SIGNATURE = 'n: int, x: float, b: bool, s: str, xs: list[int], ys: list[str], d: dict[str, int], t: tuple[int, str], c: C, e: E, xss: list[list[int]], dl: dict[str, list[float]], cs: list[C], xa: Ints, rows: Rows, da: DS, xo: list[int] | None, co: C | None, lo: list[C] | None, xn: None | list[int], cn: None | C, ln: None | list[C]'
+SIGNATURE = 'n: int, x: float, b: bool, s: str, xs: list[int], ys: list[str], d: dict[str, int], t: tuple[int, str], c: C, e: E, xss: list[list[int]], dl: dict[str, list[float]], cs: list[C], xa: Ints, rows: Rows, da: DS, xo: list[int] | None, co: C | None, lo: list[C] | None, xn: None | list[int], cn: None | C, ln: None | list[C], gi: G[int], gs: G[str], ig: IG'
 
 
 def describe(v) -> str:
@@ -65,14 +97,17 @@ def describe(v) -> str:
 		return f'dict<{describe(k)}, {describe(x)}>' if v else 'dict<?, ?>'
 	if isinstance(v, tuple):
 		return 'tuple<' + ', '.join(describe(x) for x in v) + '>'
+	if type(v).__name__ in ('G', 'IG'):
+		# a generic instance is described by what it holds
+		return f'{type(v).__name__}<{describe(v.v)}>'
 	return type(v).__name__
 
 
 def runtime_types(texts: list[str]) -> list[str]:
 	scope: dict = {}
 	exec(PRELUDE, scope)
-	C, E = scope['C'], scope['E']
-	env = {'n': 3, 'x': 1.5, 'b': True, 's': 'a,b', 'xs': [1, 2], 'ys': ['a', 'b'], 'd': {'a': 1}, 't': (1, 'z'), 'c': C(2), 'e': E.A, 'xss': [[1], [2]], 'dl': {'a': [1.5]}, 'cs': [C(1)], 'xa': [1, 2], 'rows': [[1], [2]], 'da': {'a': 1}, 'xo': [3], 'co': C(1), 'lo': [C(1)], 'xn': [4], 'cn': C(2), 'ln': [C(2)]}
+	C, E, G, IG = scope['C'], scope['E'], scope['G'], scope['IG']
+	env = {'n': 3, 'x': 1.5, 'b': True, 's': 'a,b', 'xs': [1, 2], 'ys': ['a', 'b'], 'd': {'a': 1}, 't': (1, 'z'), 'c': C(2), 'e': E.A, 'xss': [[1], [2]], 'dl': {'a': [1.5]}, 'cs': [C(1)], 'xa': [1, 2], 'rows': [[1], [2]], 'da': {'a': 1}, 'xo': [3], 'co': C(1), 'lo': [C(1)], 'xn': [4], 'cn': C(2), 'ln': [C(2)], 'gi': G(1), 'gs': G('s'), 'ig': IG(2)}
 	out = []
 	for text in texts:
 		try:
